@@ -1,7 +1,7 @@
 """C11 - array evaluation equals element-wise scalar evaluation for every dtype.
 
 Each array-accepting correlation is executed on a symbolic array of dtype float64 / float32 /
-int64 / int32 and length 0, 1, 2 (3 in the thorough tier); boolean-mask reads split the path per
+int64 / int32 and length 0..2 (float64: 0..3; thorough: 0..3, float64 0..4); boolean-mask reads split the path per
 element (above / below the bubble point; the point itself lies on the 'at/above' side of the same
 comparison the scalar branch uses).  On every path: result dtype floating, same shape, no
 uninitialised element, input array untouched, each element equal to the scalar call on that element.
@@ -118,14 +118,14 @@ def job_target(job, target, lengths):
                 *([fn] if key != "fluid" else []))
     if key == "fluid":
         job.encoded(mod, "Fluid." + fn.split(".")[-1] if not fn.startswith("Fluid") else fn)
-    job.bound(dtypes=list(DTYPES), lengths=list(lengths))
+    job.bound(dtypes=list(DTYPES), lengths={k: list(v) for k, v in lengths.items()} if isinstance(lengths, dict) else list(lengths))
     job.assume_text("element values are reals (binary32 / integer overflow not modelled); tolerance 1e-9 (1e-5 for float32); "
                     "strided / non-contiguous inputs are outside the model (memory layout is not modelled)")
     vs, dom = box(None, S=(0, 25), **OILV)
     if call_scalar is None:
         call_scalar = lambda ms, v, q: call_arr(mod, v, q)
     for dt in DTYPES:
-        for n in lengths:
+        for n in (lengths[dt] if isinstance(lengths, dict) else lengths):
             els = [fresh(f"e{j}", pos=True) for j in range(n)]
             edom = []
             for e in els:
@@ -211,5 +211,8 @@ def _validate(job, target, pr, out):
 
 
 def jobs(tier):
-    lengths = (0, 1, 2) if tier == "quick" else (0, 1, 2, 3)
+    # length 3 is the shortest array on which a value vector shorter than the array can be mis-indexed (two selected
+    # elements with an unselected one between or before them), so float64 goes to 3 in the quick tier as well
+    lengths = {"f8": (0, 1, 2, 3), "f4": (0, 1, 2), "i8": (0, 1, 2), "i4": (0, 1, 2)} if tier == "quick" else \
+        {"f8": (0, 1, 2, 3, 4), "f4": (0, 1, 2, 3), "i8": (0, 1, 2, 3), "i4": (0, 1, 2, 3)}
     return [(t, (lambda j, t=t: job_target(j, t, lengths))) for t in _targets()]
